@@ -9,11 +9,14 @@
 #![allow(dead_code, clippy::too_many_lines, clippy::type_complexity)]
 
 mod ev;
+mod gen;
 mod json;
 mod rng;
 mod spec;
+mod syncdrive;
 mod wire;
 
+mod c02;
 mod c15;
 mod c16;
 mod c17;
@@ -92,6 +95,7 @@ fn main() {
     let id: &'static str = Box::leak(prop.clone().into_boxed_str());
     let ctx = Ctx::new(id, seed, tier, scale, threads, out, replay, verbose);
     let code = match prop.as_str() {
+        "C02" => c02::run(&ctx, evidence.as_ref()),
         "C15" => c15::run(&ctx, evidence.as_ref()),
         "C16" => c16::run(&ctx, evidence.as_ref()),
         "C17" => c17::run(&ctx, evidence.as_ref()),
